@@ -63,19 +63,23 @@ def udpW (t : Tun) : Nat := match t.st with | .mux u => u.gauge | _ => 0
 @[simp] theorem tcpW_open (i : Nat) (a b d : Bool) : tcpW { sess := i, st := .open a b d } = 1 := rfl
 @[simp] theorem tcpW_mux (i : Nat) (u) : tcpW { sess := i, st := .mux u } = 0 := rfl
 @[simp] theorem tcpW_closed (i : Nat) : tcpW { sess := i, st := .closed } = 0 := rfl
+@[simp] theorem tcpW_imux (i : Nat) : tcpW { sess := i, st := .imux } = 0 := rfl
 @[simp] theorem udpW_connecting (i n : Nat) : udpW { sess := i, st := .connecting n } = 0 := rfl
 @[simp] theorem udpW_open (i : Nat) (a b d : Bool) : udpW { sess := i, st := .open a b d } = 0 := rfl
 @[simp] theorem udpW_mux (i : Nat) (u) : udpW { sess := i, st := .mux u } = u.gauge := rfl
 @[simp] theorem udpW_closed (i : Nat) : udpW { sess := i, st := .closed } = 0 := rfl
+@[simp] theorem udpW_imux (i : Nat) : udpW { sess := i, st := .imux } = 0 := rfl
 
 theorem tcpW_of_connecting {t : Tun} {n} (h : t.st = .connecting n) : tcpW t = 1 := by simp [tcpW, h]
 theorem tcpW_of_open {t : Tun} {a b d} (h : t.st = .open a b d) : tcpW t = 1 := by simp [tcpW, h]
 theorem tcpW_of_mux {t : Tun} {u} (h : t.st = .mux u) : tcpW t = 0 := by simp [tcpW, h]
 theorem tcpW_of_closed {t : Tun} (h : t.st = .closed) : tcpW t = 0 := by simp [tcpW, h]
+theorem tcpW_of_imux {t : Tun} (h : t.st = .imux) : tcpW t = 0 := by simp [tcpW, h]
 theorem udpW_of_connecting {t : Tun} {n} (h : t.st = .connecting n) : udpW t = 0 := by simp [udpW, h]
 theorem udpW_of_open {t : Tun} {a b d} (h : t.st = .open a b d) : udpW t = 0 := by simp [udpW, h]
 theorem udpW_of_mux {t : Tun} {u} (h : t.st = .mux u) : udpW t = u.gauge := by simp [udpW, h]
 theorem udpW_of_closed {t : Tun} (h : t.st = .closed) : udpW t = 0 := by simp [udpW, h]
+theorem udpW_of_imux {t : Tun} (h : t.st = .imux) : udpW t = 0 := by simp [udpW, h]
 
 theorem liveSessions_eq (s : St) (p : Proto) : liveSessions s p = (s.sess.map (sessW p)).sum := by
   unfold liveSessions
@@ -180,6 +184,8 @@ theorem tun_lt_of_mux {s : St} {t : Nat} {u} (h : (s.tuns.getD t default).st = .
     t < s.tuns.length := tun_lt_of_st_ne (by rw [h]; simp)
 theorem tun_lt_of_closed {s : St} {t : Nat} (h : (s.tuns.getD t default).st = .closed) :
     t < s.tuns.length := tun_lt_of_st_ne (by rw [h]; simp)
+theorem tun_lt_of_imux {s : St} {t : Nat} (h : (s.tuns.getD t default).st = .imux) :
+    t < s.tuns.length := tun_lt_of_st_ne (by rw [h]; simp)
 
 theorem aliveS_congr {s s' : St} (h : s'.sess = s.sess) (i : Nat) : aliveS s' i = aliveS s i := by
   simp [aliveS, h]
@@ -240,6 +246,9 @@ theorem closeTun_of_mux {s : St} {t u} (h : (s.tuns.getD t default).st = .mux u)
 theorem closeTun_of_closed {s : St} {t} (h : (s.tuns.getD t default).st = .closed) :
     closeTun s t = s := by
   unfold closeTun; rw [h]
+theorem closeTun_of_imux {s : St} {t} (h : (s.tuns.getD t default).st = .imux) :
+    closeTun s t = updTun s t .closed s.cells := by
+  unfold closeTun; rw [h]; rfl
 
 @[simp] theorem updTun_now (s : St) (t st cells) : (updTun s t st cells).now = s.now := rfl
 @[simp] theorem updTun_sess (s : St) (t st cells) : (updTun s t st cells).sess = s.sess := rfl
@@ -411,6 +420,9 @@ theorem Pres.of_closeTun (s : St) {t : Nat} (ht : t < s.tuns.length) : Pres s (c
   | mux u =>
     rw [closeTun_of_mux hst]
     apply Pres.upd ht <;> simp [tcpW_of_mux hst, udpW_of_mux hst, gauge_no_socks]
+  | imux =>
+    rw [closeTun_of_imux hst]
+    apply Pres.upd ht <;> simp [tcpW_of_imux hst, udpW_of_imux hst]
   | closed =>
     rw [closeTun_of_closed hst]; exact Pres.refl s
 
@@ -444,7 +456,7 @@ def goneBody (i : Nat) (s : St) (t : Nat) : St :=
     match tn.st with
     | .open _ _ true => closeTun s t
     | .open ce _ false => setTun s t (.open ce true false)
-    | .mux _ => closeTun s t
+    | .mux _ | .imux => closeTun s t
     | _ => s
   else s
 
@@ -459,6 +471,7 @@ theorem Pres.of_goneBody (i : Nat) (s : St) (t : Nat) : Pres s (goneBody i s t) 
     · next h => exact Pres.of_closeTun s (tun_lt_of_open h)
     · next ce o h => exact Pres.of_setOpen s h _ _ _
     · next u h => exact Pres.of_closeTun s (tun_lt_of_mux h)
+    · next h => exact Pres.of_closeTun s (tun_lt_of_imux h)
     · exact Pres.refl s
   · exact Pres.refl s
 
@@ -491,7 +504,10 @@ theorem goneBody_noMux (i : Nat) (s : St) (t : Nat) : NoMux i t (goneBody i s t)
   · next u0 h =>
     rw [closeTun_of_mux h, updTun_getD, if_pos ⟨rfl, tun_lt_of_mux h⟩] at hu
     cases hu
-  · next h1 h2 h3 => exact h3 u hu
+  · next h =>
+    rw [closeTun_of_imux h, updTun_getD, if_pos ⟨rfl, tun_lt_of_imux h⟩] at hu
+    cases hu
+  · next h1 h2 h3 h4 => exact h3 u hu
 
 theorem clientGone_noMux (s : St) (i j : Nat) : NoMux i j (clientGone s i) := by
   by_cases hj : j < s.tuns.length
@@ -619,6 +635,7 @@ def advBody (c : Cfg) (ms : Nat) (s : St) (t : Nat) : St :=
   | .open _ _ _ =>
     if 2 * c.tcpIdle ≤ ms then endIfH1 (closeTun s t) tn.sess else s
   | .mux u => stepMux c s t u (.adv ms)
+  | .imux => s
   | .closed => s
 
 theorem step_adv_eq (c : Cfg) (s : St) (ms : Nat) :
@@ -637,6 +654,7 @@ theorem Pres.of_advBody (c : Cfg) (ms : Nat) (s : St) {t : Nat} (ht : t < s.tuns
     · exact (Pres.of_closeTun s ht).trans (Pres.of_endIfH1 _ _)
     · exact Pres.refl s
   · next u h => exact Pres.of_stepMux c s h _
+  · exact Pres.refl s
   · exact Pres.refl s
 
 theorem Pres.of_advFold (c : Cfg) (ms : Nat) (s : St) (l : List Nat) (hl : ∀ t ∈ l, t < s.tuns.length) :
@@ -783,6 +801,10 @@ theorem step_ok (c : Cfg) (s : St) (op : Op) : StepOk s (step c s op) := by
         exact StepOk.append s _ s.cells rfl rfl (by simp) (by simp [muxInit_gauge]) (Nat.le_refl _)
           (Nat.le_refl _) (Nat.le_refl _) (Nat.le_refl _)
           (And.intro (fun u _ _ => ha) (fun n hn => nomatch hn))
+      | icmp =>
+        exact StepOk.append s _ s.cells rfl rfl (by simp) (by simp) (Nat.le_refl _)
+          (Nat.le_refl _) (Nat.le_refl _) (Nat.le_refl _)
+          (TunOk.of_not _ _ (fun u hu => nomatch hu) (fun n hn => nomatch hn))
   | up t n =>
     simp only [step]
     split
@@ -815,10 +837,12 @@ theorem step_ok (c : Cfg) (s : St) (op : Op) : StepOk s (step c s op) := by
             · next h => exact (Pres.of_closeTun s (tun_lt_of_open h)).ok
             · next h => exact (Pres.of_setOpen s h _ _ _).ok
             · next h => exact (Pres.of_closeTun s (tun_lt_of_mux h)).ok
+            · next h => exact (Pres.of_closeTun s (tun_lt_of_imux h)).ok
             · exact StepOk.refl s
           · split
             · next h => exact (Pres.of_closeTun s (tun_lt_of_open h)).ok
             · next h => exact (Pres.of_closeTun s (tun_lt_of_mux h)).ok
+            · next h => exact (Pres.of_closeTun s (tun_lt_of_imux h)).ok
             · next h => exact (Pres.of_closeTun s (tun_lt_of_open h)).ok
             · next h => exact (Pres.of_setOpen s h _ _ _).ok
             · exact StepOk.refl s
@@ -831,6 +855,17 @@ theorem step_ok (c : Cfg) (s : St) (op : Op) : StepOk s (step c s op) := by
     simp only [step]
     split
     · next h => exact (Pres.of_stepMux c s h _).ok
+    · exact StepOk.refl s
+  | icmpEcho t answered n =>
+    simp only [step]
+    split
+    · split
+      · exact StepOk.cells s _ (by simp) (by simp) (by simp) (by simp)
+          (by simpa using Cells.addUp_up1_le s.cells _ _)
+          (by simpa using Cells.addUp_up2_le s.cells _ _)
+          (by simpa using Cells.addDn_dn1_le (s.cells.addUp _ _) _ _)
+          (by simpa using Cells.addDn_dn2_le (s.cells.addUp _ _) _ _)
+      · exact StepOk.refl s
     · exact StepOk.refl s
   | adv ms =>
     rw [step_adv_eq]
@@ -914,6 +949,7 @@ theorem AllDead.udp_zero {s : St} (h : AllDead s) (hi : Inv2 noEx 0 s) : (s.tuns
     cases this
   | connecting n => exact udpW_of_connecting hst
   | «open» a b d => exact udpW_of_open hst
+  | imux => exact udpW_of_imux hst
   | closed => exact udpW_of_closed hst
 
 theorem gone_sessions_udp_zero {s : St} (he : Eq4 s) (hi : Inv2 noEx 0 s) (h : AllDead s) :
@@ -929,6 +965,7 @@ theorem closeTun_getD_ne (s : St) (t : Nat) {j : Nat} (h : j ≠ t) :
   | connecting n => rw [closeTun_of_connecting hst, updTun_getD, if_neg (fun hh => h hh.1)]
   | «open» a b d => rw [closeTun_of_open hst, updTun_getD, if_neg (fun hh => h hh.1)]
   | mux u => rw [closeTun_of_mux hst, updTun_getD, if_neg (fun hh => h hh.1)]
+  | imux => rw [closeTun_of_imux hst, updTun_getD, if_neg (fun hh => h hh.1)]
   | closed => rw [closeTun_of_closed hst]
 
 theorem closeTun_tcpW_self (s : St) {t : Nat} (ht : t < s.tuns.length) :
@@ -937,6 +974,7 @@ theorem closeTun_tcpW_self (s : St) {t : Nat} (ht : t < s.tuns.length) :
   | connecting n => rw [closeTun_of_connecting hst, updTun_getD, if_pos ⟨rfl, ht⟩]; rfl
   | «open» a b d => rw [closeTun_of_open hst, updTun_getD, if_pos ⟨rfl, ht⟩]; rfl
   | mux u => rw [closeTun_of_mux hst, updTun_getD, if_pos ⟨rfl, ht⟩]; rfl
+  | imux => rw [closeTun_of_imux hst, updTun_getD, if_pos ⟨rfl, ht⟩]; rfl
   | closed => rw [closeTun_of_closed hst]; exact tcpW_of_closed hst
 
 /-- after the timeouts ran out, tunnel `t` holds no TCP socket -/
@@ -953,6 +991,7 @@ theorem advBody_tcpW_self (c : Cfg) (ms : Nat) (s : St) {t : Nat} (ht : t < s.tu
   · rw [if_pos hi]; exact closed
   · next u h =>
     rw [stepMux_eq_upd, updTun_getD, if_pos ⟨rfl, ht⟩]; rfl
+  · next h => exact tcpW_of_imux h
   · next h => exact tcpW_of_closed h
 
 theorem adv_tcp_zero (c : Cfg) (ms : Nat) (s : St) (he : Eq4 s) (h2 : Inv2 noEx 0 s)
@@ -1125,6 +1164,7 @@ theorem goneBody_conn (i : Nat) (s : St) (t : Nat) {j n : Nat}
       · rw [closeTun_getD_ne _ _ hjt]; exact h
       · rw [setTun_getD_ne _ _ _ hjt]; exact h
       · rw [closeTun_getD_ne _ _ hjt]; exact h
+      · rw [closeTun_getD_ne _ _ hjt]; exact h
       · exact h
     · exact h
 
@@ -1153,6 +1193,7 @@ theorem advBody_conn (c : Cfg) (ms : Nat) (s : St) {t j n : Nat} (hjt : j ≠ t)
     · exact endIfH1_conn _ _ (by rw [closeTun_getD_ne _ _ hjt]; exact h)
     · exact h
   · rw [stepMux_eq_upd, updTun_getD, if_neg (fun hh => hjt hh.1)]; exact h
+  · exact h
   · exact h
 
 theorem advBody_of_conn_due (c : Cfg) (ms : Nat) (s : St) {t since : Nat}
